@@ -19,9 +19,15 @@ def main():
     if rc: print(out); return 2
     res = {'repo_head': sh('git -C /repo rev-parse --short HEAD')[1].strip()}
     try:
+        try:
+            import re as _re
+            extra = ' '.join(t for t in _re.findall(r'-[DO]\S+', json.load(open(os.path.join(d, 'meta.json'))).get('build', '')) if t != '-DCELLO_NSTRACE')
+        except Exception:
+            extra = ''
+        res['extra_build_flags_from_meta'] = extra
         def demo(tag):
             exe = f'{wt}/demo_{tag}'
-            rc, out = sh(f'gcc -std=gnu99 -I{wt}/include -DCELLO_NSTRACE {d}/demo.c {wt}/src/*.c -lpthread -lm -o {exe}')
+            rc, out = sh(f'gcc -std=gnu99 {extra} -I{wt}/include -DCELLO_NSTRACE {d}/demo.c {wt}/src/*.c -lpthread -lm -o {exe}')
             if rc: return {'build': 'FAILED', 'log': out[-800:]}
             rs = []
             for i in range(runs):
